@@ -99,7 +99,29 @@ func (s *State) clone() *State {
 	for k, v := range s.memo {
 		c.memo[k] = v
 	}
-	// written / wrLocal are shared on purpose (recording is cumulative)
+	// recording sets are per path (a write on a path that leaves a loop does not count for the loop)
+	if s.written != nil {
+		c.written = make(map[string]bool, len(s.written))
+		for k, v := range s.written {
+			c.written[k] = v
+		}
+	}
+	if s.wrLocal != nil {
+		c.wrLocal = make(map[types.Object]bool, len(s.wrLocal))
+		for k, v := range s.wrLocal {
+			c.wrLocal[k] = v
+		}
+	}
+	if s.wrefs != nil {
+		c.wrefs = make(map[string]map[string]*pcNode, len(s.wrefs))
+		for k, set := range s.wrefs {
+			ns := make(map[string]*pcNode, len(set))
+			for r, pc := range set {
+				ns[r] = pc
+			}
+			c.wrefs[k] = ns
+		}
+	}
 	c.guard = append([]string(nil), s.guard...)
 	c.defers = append([]*deferred(nil), s.defers...)
 	c.roRefs = map[string]string{}
